@@ -49,6 +49,9 @@ CHECKS = {
  "C18": ("ctlsim", "exploration", "runtime monitoring: structural invariants of the controller's three membership structures at settled points (hooked state) + call logs",
          "Held on the generated membership walks: replica list, replicator backend map, reader and writer lists and RWReplicaCount agreed at every settled point; no duplicates, never more than RF replicas or more than one WO; writes reached exactly the writers and detached replicas received no call after Close.",
          "State read through the verif-tagged VerifState hook under the controller lock.", "DESIGN.md 4/C18"),
+ "C08": ("crashpt", "fault_enumeration", "runtime monitoring with ptrace-level fault injection: strace kills the victim before every state-changing syscall of the operation and fails every call once; a checker process reopens the directory with the real code",
+         "For the sampled (pre-state, operation) pairs every syscall boundary of the operation was enumerated: after process death before each state-changing call the directory reopened (with and without preload) with the chain before or after, acknowledged data and retained user snapshots unchanged and the counter not decreased; with each call failing once (ENOSPC; thorough also EIO) no operation reported success over a state other than the complete after-state and none left an unopenable directory; the durability lint (directory fsync after every directory-entry change, O_SYNC metadata temp files) passed on every reference trace.",
+         "Process death, not power loss; syscall boundaries of the operation's own thread; pre-states and operations are sampled, boundaries within them are exhaustive.", "DESIGN.md 4/C08"),
 }
 
 NOT_YET = "check not built yet in this round (see DESIGN.md build order); no verdict claimed"
@@ -69,6 +72,8 @@ def main():
      "engines": [
        {"name": "reng", "path": "harness/internal/reng", "serves_properties": ["C01", "C06", "C10", "C11", "C12", "C16", "C17"],
         "kind_free_text": "real replica engine (replica.Server on ext4, real hole puncher, real fold) + reference model of block image and snapshot chain"},
+       {"name": "crashpt", "path": "harness/internal/crashpt", "serves_properties": ["C08", "C10"],
+        "kind_free_text": "victim process running one replica operation on its locked main thread under strace (trace, SIGKILL before the k-th call, errno injection) + checker process reopening the directory"},
        {"name": "ctlsim", "path": "harness/internal/ctlsim", "serves_properties": ["C01", "C02", "C03", "C04", "C05", "C09", "C13", "C16", "C18"],
         "kind_free_text": "real controller.Controller over scripted types.Backend fakes (per-call outcome scripts, applied logs, remote.Remote-like monitor channel) + HTTP stubs of the replica REST API"},
      ],
